@@ -684,6 +684,11 @@ func (t *tokenizer) skipContainerHelper(term int) error {
 		panic(fmt.Sprintf("unexpected character: %q. Expected one of the closing container characters: ] } )", term))
 	}
 
+	// The terminators of the containers we are inside of, innermost last. The
+	// nesting depth is chosen by the input, so it is kept in a slice rather than
+	// on the goroutine stack.
+	terms := []int{term}
+
 	for {
 		c, _, err := t.skipWhitespace()
 		if err != nil {
@@ -694,8 +699,11 @@ func (t *tokenizer) skipContainerHelper(term int) error {
 		case -1:
 			return t.invalidChar(c)
 
-		case term:
-			return nil
+		case terms[len(terms)-1]:
+			terms = terms[:len(terms)-1]
+			if len(terms) == 0 {
+				return nil
+			}
 
 		case '"':
 			if err := t.skipStringHelper(); err != nil {
@@ -718,14 +726,10 @@ func (t *tokenizer) skipContainerHelper(term int) error {
 			}
 
 		case '(':
-			if err := t.skipContainerHelper(')'); err != nil {
-				return err
-			}
+			terms = append(terms, ')')
 
 		case '[':
-			if err := t.skipContainerHelper(']'); err != nil {
-				return err
-			}
+			terms = append(terms, ']')
 
 		case '{':
 			c, err := t.peek()
@@ -745,9 +749,7 @@ func (t *tokenizer) skipContainerHelper(term int) error {
 					return err
 				}
 			} else {
-				if err := t.skipContainerHelper('}'); err != nil {
-					return err
-				}
+				terms = append(terms, '}')
 			}
 		}
 	}
